@@ -147,10 +147,13 @@ func NewNet(r *Run) *Net {
 func (n *Net) Stop() {
 	select {
 	case <-n.stop:
+		<-n.done
+		return
 	default:
 		close(n.stop)
 	}
 	<-n.done
+	n.r.Logf("net sent=%d delivered=%d dropped=%d digest=%016x", n.Sent, n.Delivered, n.Dropped, n.Digest)
 }
 
 func (n *Net) faulty() bool {
@@ -172,6 +175,9 @@ func (n *Net) schedule(at time.Duration, d *Dgram, fn func()) {
 // the apparent source address.
 func (n *Net) Inject(from, dst *net.UDPAddr, data []byte, delay time.Duration, tag string) {
 	d := &Dgram{Src: from, From: from, Dst: dst, Data: append([]byte(nil), data...), SentAt: n.r.Now(), Mut: "attacker", Tag: tag}
+	n.mu.Lock()
+	n.Digest = splitmix(n.Digest ^ hashBytes(data) ^ uint64(n.r.Now()))
+	n.mu.Unlock()
 	n.schedule(n.r.Now()+delay, d, nil)
 }
 
@@ -182,6 +188,15 @@ func (n *Net) Redeliver(d *Dgram, delay time.Duration) {
 
 // At runs fn on the dispatcher goroutine at the given simulated offset from now.
 func (n *Net) At(delay time.Duration, fn func()) { n.schedule(n.r.Now()+delay, nil, fn) }
+
+func hashBytes(b []byte) uint64 {
+	h := uint64(0xcbf29ce484222325)
+	for _, c := range b {
+		h ^= uint64(c)
+		h *= 0x100000001b3
+	}
+	return h
+}
 
 func typeName(b []byte) string {
 	if len(b) == 0 {
